@@ -58,6 +58,12 @@ CONTEXTS = {
     "html": ("<span class=\"k\">", "</span>", None),
     "italic": ("''", "''", None),
     "nested-arg": ("{{echo|{{echo|", "}}}}", lambda q: "[[" + q + "]]"),
+    # the nowiki span is the very first thing of a template's expansion (the
+    # place where an expansion starting with a list / table marker gets a
+    # line break prepended - inert content must not count as such a start)
+    "bare-arg": ("x{{bare|", "}}y", lambda q: "x" + q + "y"),
+    "bare-arg-first": ("{{bare|", "}} tail", lambda q: q + " tail"),
+    "bare-arg-nested": ("x{{bare|{{bare|", "}}}}y", lambda q: "x" + q + "y"),
 }
 
 
@@ -65,6 +71,7 @@ def install(ctx):
     ctx.add_page("Template:echo", 10, "[{{{1}}}]")
     ctx.add_page("Template:echo3", 10, "[{{{1}}}/{{{2}}}/{{{3}}}]")
     ctx.add_page("Template:echok", 10, "[{{{k}}}]")
+    ctx.add_page("Template:bare", 10, "{{{1}}}")
     ctx.add_page("Template:t", 10, "T-BODY")
     ctx.add_page("Template:L", 10, "L-BODY")
 
